@@ -102,6 +102,9 @@ package internals
 // the provider factory the execution invokes, nil for plain Go data.
 //@ ghost srctag Ptr
 //@ spec recregions() = locs(anyelems(Ptr), mapsof(ZogIssueMap), anyfield(ZogIssue, Message), srctag)
+// what a schema node may write besides its destination: the issue record, and the type of a foreign issue it adopts
+//@ spec nodefp(x) = locs(recfp(x), anyfield(ZogIssue, Dtype))
+//@ spec noderegions() = locs(recregions(), anyfield(ZogIssue, Dtype))
 //@ spec recfp(x) = locs(L(x.Errors), when(istype(x.Errors, *ErrsList), x.Errors.(*ErrsList).List), when(istype(x.Errors, *ErrsMap), x.Errors.(*ErrsMap).M), anyelems(Ptr), mapsof(ZogIssueMap), anyfield(ZogIssue, Message), srctag)
 
 // Abstract path of a PathBuilder: the sequence of segments pushed after the root (ghost PSEQ). PathSeq is the theory
@@ -138,9 +141,12 @@ package internals
 // ---- function-type contracts (assumed for user callbacks, proved for zog's own closures)
 
 // A formatter only sets the message of the issue it is given (assumption A7).
+// fmtout(f, e) NAMES the message formatter f leaves on issue e (each formatter runs at most once per issue).
+//@ specfun fmtout(Fn, Ptr) String
 //@ functype IssueFmtFunc(self, e, p)
 //@   requires e != nil
 //@   modifies e.Message
+//@   names e.Message == fmtout(self, e)
 
 // A bool test is pure; its verdict is left unconstrained (any test).
 //@ specfun bverdict(Fn, Iface) Bool
@@ -239,6 +245,7 @@ package internals
 //@   modifies recfp(c)
 //@   ensures[C02] logged: L(c.Errors) == push(old(L(c.Errors)), e)
 //@   ensures[C11] msg_kept: old(e.Message) != "" ==> e.Message == old(e.Message)
+//@   ensures[C11] execution_formatter_if_no_message_yet: old(e.Message) == "" ==> e.Message == fmtout(old(c.Fmter), e)
 //@   ensures[C02] rep: zrep(c.Errors)
 
 //@ func (*ExecCtx).Set(c, key, val)
@@ -264,6 +271,7 @@ package internals
 //@   ensures[C05,C01] swallow: old(c.CanCatch) ==> c.Exit && unchanged(LC(c))
 //@   ensures[C02,C05] record: !old(c.CanCatch) ==> unchanged(c.Exit) && LC(c) == push(old(LC(c)), e)
 //@   ensures[C11] msg_kept: old(e.Message) != "" ==> e.Message == old(e.Message)
+//@   ensures[C11] execution_formatter_if_no_message_yet: !old(c.CanCatch) && old(e.Message) == "" ==> e.Message == fmtout(old(c.ExecCtx.Fmter), e)
 //@   ensures[C02] rep: zrep(c.ExecCtx.Errors)
 
 //@ func (*SchemaCtx).IssueFromTest(c, test, val)
@@ -277,6 +285,7 @@ package internals
 //@   ensures[C11] params: result.Params == test.Params
 //@   ensures[C07] err_reset: result.Err == nil
 //@   ensures[C11,C07] message_default: test.IssueFmtFunc == nil ==> result.Message == ""
+//@   ensures[C11] test_formatter_goes_first: test.IssueFmtFunc != nil ==> result.Message == fmtout(test.IssueFmtFunc, result)
 
 //@ func (*SchemaCtx).IssueFromCoerce(c, err)
 //@   fresh
@@ -304,8 +313,10 @@ package internals
 
 //@ func (*SchemaCtx).IssueFromUnknownError(c, err)
 //@   requires wfctx(c)
-//@   modifies nothing
+//@   requires[C06] no_typed_nil_issue: istype(err, *ZogIssue) ==> err.(*ZogIssue) != nil
+//@   modifies when(istype(err, *ZogIssue), err.(*ZogIssue).Dtype)
 //@   ensures[C12] passthrough: istype(err, *ZogIssue) ==> result == err.(*ZogIssue)
+//@   ensures[C11] foreign_issue_gets_the_nodes_type: istype(err, *ZogIssue) ==> result.Dtype == ite(old(err.(*ZogIssue).Dtype) == "", c.DType, old(err.(*ZogIssue).Dtype))
 //@   ensures[C12] wrapped: !istype(err, *ZogIssue) ==> isnew(result) && result.Err == err && result.Path == prender(PSEQ(c.Path)) && result.Code == "" && result.Message == "" && result.Params == nil && result.Dtype == c.DType
 
 // ---- path builder (bodies proved against the ghost sequence in the C10 group)
